@@ -529,6 +529,7 @@ func registerAll() {
 	ev.Register("projects-after-prelude", judged)
 	ev.Register("projects", judged)
 	ev.Register("recursive", judgedRecursive)
+	ev.Register("own-registrations", judgedOwn)
 }
 
 // the generated cases after a disturbing prelude on other objects (sut.Disturb), every case from emptied pools
@@ -636,3 +637,92 @@ func TestReplay(t *testing.T) {
 }
 
 var _ = json.Valid
+
+// ---- types that bring types of their own under a name the root registers itself
+
+// OwnCase: a root whose registered types carry registrations of their own (sut.Named.Own) under names the
+// root registers too. Whatever the carried types say, the example has to be an instance of the conversion in
+// which every $ref stands for the conversion of the type the ROOT registered under that name.
+type OwnCase struct {
+	P sut.Project `json:"project"`
+}
+
+func ownOracle(c OwnCase) *ev.Verdict {
+	built := sut.Build(c.P)
+	o := sut.ObserveBuilt(built)
+	if len(o.Escapes) > 0 {
+		e := o.Escapes[0]
+		return ev.V("own:panic:"+e.Op+":"+e.Frame, "%s panicked: %s\n%s", e.Op, e.Value, c.P)
+	}
+	if o.Check != nil || len(o.AddErr) > 0 {
+		ev.Class("own-registrations", "rejected (nothing asserted)")
+		return nil
+	}
+	if o.ExampleErr != nil {
+		return ev.V(fmt.Sprintf("own:example:error:code-%d", o.ExampleErr.Code), "Check() accepts but Example() fails: %s\n%s", o.ExampleErr, c.P)
+	}
+	inst, err := jsonv.Parse([]byte(o.Example))
+	if err != nil {
+		return ev.V("own:example:invalid-json", "Example() is not RFC 8259 JSON: %.300s\n%s", o.Example, c.P)
+	}
+	root, ctx, v := convert(o, &model.Project{})
+	if v != nil {
+		v.Detail += "\n" + c.P.String()
+		return v
+	}
+	if err := oas.WellFormed(root, "#", ctx); err != nil {
+		return oasVerdict("own:ill-formed", err, o.OpenAPI+"\n"+c.P.String())
+	}
+	if err := oas.Validate(inst, root, "#", ctx); err != nil {
+		return oasVerdict("own:example-invalid", err, "example "+o.Example+"\nschema "+o.OpenAPI+"\ncomponents "+fmt.Sprint(o.TypeOpenAPI)+"\n"+c.P.String())
+	}
+	ev.Class("own-registrations", "accepted, example judged")
+	return nil
+}
+
+func genOwn(t *rapid.T) OwnCase {
+	texts := []string{`"x1"`, `2`, "{\n  \"k\": 1\n}", "[\n  true\n]", `"x" // {minLength: 1}`, `2.5 // {min: 1}`, `true`, `null`}
+	var sp sut.Project
+	var root strings.Builder
+	root.WriteString("{")
+	// carrier names before and after the carried names in byte order
+	names := rapid.SliceOfNDistinct(rapid.SampledFrom([]string{"@a", "@b", "@w", "@x1", "@z", "@zz"}), 1, 3, func(s string) string { return s }).Draw(t, "carriers")
+	for i, name := range names {
+		body := rapid.SampledFrom([]string{"{\n  \"p\": @x\n}", "{\n  \"p\": [\n    @x\n  ]\n}", "@x", "{\n  \"p\": @x, // {optional: true}\n  \"q\": @y\n}", "{\n  \"p\": @x | @y\n}"}).Draw(t, name+"body")
+		ty := sut.Named{Name: name, Text: body, Own: []sut.Named{{Name: "@x", Text: rapid.SampledFrom(texts).Draw(t, name+"x")}}}
+		if strings.Contains(body, "@y") {
+			ty.Own = append(ty.Own, sut.Named{Name: "@y", Text: rapid.SampledFrom(texts).Draw(t, name+"y")})
+		}
+		sp.Types = append(sp.Types, ty)
+		if i > 0 {
+			root.WriteString(",")
+		}
+		fmt.Fprintf(&root, "\n  \"h%d\": %s", i, name)
+	}
+	if rapid.Bool().Draw(t, "direct") {
+		root.WriteString(",\n  \"direct\": @x")
+	}
+	root.WriteString("\n}")
+	sp.Root = root.String()
+	own := []sut.Named{{Name: "@x", Text: rapid.SampledFrom(texts).Draw(t, "rootx")}, {Name: "@y", Text: rapid.SampledFrom(texts).Draw(t, "rooty")}}
+	// the root's own registrations before or after the carriers
+	if rapid.Bool().Draw(t, "ownfirst") {
+		sp.Types = append(own, sp.Types...)
+	} else {
+		sp.Types = append(sp.Types, own...)
+	}
+	return OwnCase{P: sp}
+}
+
+func judgedOwn(c OwnCase) *ev.Verdict {
+	ev.NonTrivial("own-registrations", c.P.String())
+	if ev.WantSample("own-registrations") {
+		ev.Sample("own-registrations", c)
+	}
+	return ownOracle(c)
+}
+
+func TestPropOwnRegistrations(t *testing.T) {
+	registerAll()
+	ev.Rapid(t, "own-registrations", ev.N(600, 4000), genOwn, judgedOwn)
+}
